@@ -99,7 +99,44 @@ class Inliner:
                         return i.get("id")
         return None
 
+    def _name_lambdas(self, f):
+        """A local that is initialised with a lambda and never reassigned is the lambda: where it is passed on
+        (yield_while(pred), visit(vis, v) ...) the argument is presented as the lambda itself."""
+        lam = {}
+        written = set()
+        for b in f["blocks"]:
+            for e in b["events"]:
+                if e.get("k") == "decl" and e.get("init") is not None:
+                    i = _strip(e["init"])
+                    if isinstance(i, dict) and i.get("k") == "lambda":
+                        lam[e.get("var")] = i
+                elif e.get("k") == "write":
+                    l = _strip(e.get("lhs"))
+                    if isinstance(l, dict) and l.get("k") == "var":
+                        written.add(l.get("name"))
+        lam = {k: v for k, v in lam.items() if k not in written}
+        if not lam:
+            return
+
+        def pred(n):
+            return n.get("k") == "var" and n.get("name") in lam
+
+        def repl(n):
+            return copy.deepcopy(lam[n["name"]])
+        for b in f["blocks"]:
+            newev = []
+            for e in b["events"]:
+                if e.get("k") == "call" and not e.get("lambda_call") and e.get("args"):
+                    e = dict(e, args=[_walk_replace(a, pred, repl) for a in e["args"]])
+                elif e.get("k") in ("ctor", "construct") and e.get("args"):
+                    e = dict(e, args=[_walk_replace(a, pred, repl) for a in e["args"]])
+                newev.append(e)
+            b["events"] = newev
+
     def run(self):
+        for f in self.fns:
+            if "blocks" in f:
+                self._name_lambdas(f)
         for f in self.fns:
             if "blocks" in f:
                 self._inline_fn(f, 0, set([f["id"]]))
